@@ -436,6 +436,26 @@ def tree_descs(draw, max_leaves=12, keys=None, kinds=None, max_depth=6, min_leav
 
 
 @st.composite
+def partially_comparable_dicts(draw):
+    """a dict / defaultdict whose tuple keys defeat both sorting attempts only *after* some elements were moved:
+    keys that compare fine pairwise except for one pair - ('b', 1) < ('b', 'x') raises, ('a', 0) < ('b', 1) does not"""
+    pool = [[['s', 'b'], ['i', 1]], [['s', 'a'], ['i', 0]], [['s', 'b'], ['s', 'x']], [['s', 'a'], ['s', 'y']],
+            [['i', 2], ['n']], [['i', 1], ['i', 5]], [['i', 2], ['i', 3]], [['s', 'c'], ['i', 2]], [['i', 0], ['s', 'q']]]
+    keys = [['t', k] for k in draw(st.permutations(pool))[:draw(st.integers(3, 5))]]
+    items = [[k, draw(leaf_descs()) if draw(st.booleans()) else ['tuple', [draw(leaf_descs()), draw(leaf_descs())]]] for k in keys]
+    if draw(st.integers(0, 2)) == 0:
+        node = ['dd', draw(_FACT), items, []]
+    else:
+        node = ['dict', items, []]
+    outer = draw(st.sampled_from(['bare', 'list', 'dict']))
+    if outer == 'bare':
+        return node
+    if outer == 'list':
+        return ['list', [draw(leaf_descs()), node]]
+    return ['dict', [[['s', 'z'], node], [['s', 'b'], draw(leaf_descs())]], []]
+
+
+@st.composite
 def with_childless_twins(draw, inner):
     """a container holding `inner` next to two or three *childless* nodes of one kind whose metadata differs (empty
     deques with different maxlen, empty defaultdicts with different factories, empty custom nodes with different
